@@ -1344,7 +1344,9 @@ structure LBase (P : Program) (depth : Node → Nat) (s s1 : St) (t : Nat) (tkt 
   notNode : ∀ d0 n f pc, tkt.frames ≠ [.node d0 n f pc]
   /-- the old frames of a `_run_switch` task make it the owner of its switch -/
   oldSw  : ∀ d' S, below = [.switchRet d' S] → (∃ d0, tkt.frames = [.switchStart d0 S]) ∨
-      (∃ d0 sub rest0, tkt.frames = [.dagLaunch sub rest0, .switchRet d0 S])
+      (∃ d0 sub rest0, tkt.frames = [.dagLaunch sub rest0, .switchRet d0 S]) ∨
+      (∃ d0 sub, tkt.frames = [.dagWaitDest sub, .switchRet d0 S]) ∨
+      (∃ d0 sub, tkt.frames = [.dagInit sub, .switchRet d0 S])
   oldMain : below = [] → (∃ d0, tkt.frames = [.dagInit d0]) ∨ (∃ d0 r0, tkt.frames = [.dagLaunch d0 r0]) ∨
       (∃ d0, tkt.frames = [.dagWaitDest d0])
   e      : Ext t s s1
@@ -1396,7 +1398,7 @@ theorem LCtx.close {P : Program} {depth : Node → Nat} {s s1 : St} {t : Nat} {t
           (rcases hfr with ⟨d1, h'⟩ | ⟨d1, h'⟩ | ⟨d1, s1', h'⟩ | ⟨d1, s1', r1, h'⟩ <;> rw [h] at h' <;> simp at h')
       | sw d' S' hn hS' hsub =>
         have hSS : S = S' := by
-          rcases x.oldSw d' S' rfl with ⟨d0, h⟩ | ⟨d0, sub0, r0, h⟩ <;>
+          rcases x.oldSw d' S' rfl with ⟨d0, h⟩ | ⟨d0, sub0, r0, h⟩ | ⟨d0, sub0, h⟩ | ⟨d0, sub0, h⟩ <;>
             (rcases hfr with ⟨d1, h'⟩ | ⟨d1, h'⟩ | ⟨d1, s1', h'⟩ | ⟨d1, s1', r1, h'⟩ <;> rw [h] at h' <;> simp at h' <;>
               first | exact h'.2.symm | exact h'.2.2.symm | exact h'.symm)
         subst hSS
@@ -2145,5 +2147,113 @@ theorem struct_main_dagInit {P : Program} {depth : Node → Nat} (hp : LiveP P d
         omega }
   exact struct_dagInit hp c hcP hmc x obs (valid_of_dagInit c _ obs d _ hv)
 
+
+/-! ### the sections of `_run_dag`, from the task's frames -/
+
+/-- the frames of `_run_dag` -/
+def Frame.isDag : Frame → Bool
+  | .dagInit _ => true
+  | .dagLaunch _ _ => true
+  | .dagWaitDest _ => true
+  | _ => false
+
+set_option linter.unusedSimpArgs false in
+/-- what `TaskOK` says about a task whose top frame belongs to `_run_dag` -/
+theorem dagTask_facts {P : Program} {depth : Node → Nat} {s : St} {tk : Task} (h : TaskOK P depth s tk)
+    {F : Frame} {below : List Frame} (hf : tk.frames = F :: below) (hF : F.isDag = true) :
+    ∃ d, DagFrame P s F d ∧ DagOK P d ∧ LaunchSt P s tk F ∧
+      ((below = [] ∧ tk.name = .run ∧ d.dest = some P.g.output ∧ P.g.output ∈ d.nodes) ∨
+       (∃ d' S, below = [.switchRet d' S] ∧ P.g.isSwitch S = true ∧ tk.name = .node S ∧ SubOK' P depth s d S)) := by
+  cases h
+  case main F' d0 hn hfr hdf hdag hdest hout hst =>
+    rw [hfr] at hf
+    simp only [List.cons.injEq] at hf
+    obtain ⟨hF', hb⟩ := hf
+    subst hF'
+    exact ⟨d0, hdf, hdag, hst, Or.inl ⟨hb.symm, hn, hdest, hout⟩⟩
+  case swIn F' sub d0 S0 hn hsS hfr hdf hsub hst =>
+    rw [hfr] at hf
+    simp only [List.cons.injEq] at hf
+    obtain ⟨hF', hb⟩ := hf
+    subst hF'
+    exact ⟨sub, hdf, hsub.dag, hst, Or.inr ⟨d0, S0, hb.symm, hsS, hn, hsub⟩⟩
+  all_goals (exfalso; simp_all only [List.cons.injEq, reduceCtorEq, false_and, List.nil_eq, List.cons_ne_nil]; try (obtain ⟨hF1, _⟩ := hf; subst hF1; simp [Frame.isDag] at hF))
+
+/-- the launcher context at the beginning of a section of a task whose top frame belongs to `_run_dag` -/
+theorem lbase_of_dagTask {P : Program} {depth : Node → Nat} {s : St} (hs : Struct P depth s) {t : Nat} {tkt : Task}
+    (htkt : s.tasks[t]? = some tkt) (hrt : ∃ rv, tkt.st = .runnable rv) {F : Frame} {below : List Frame}
+    (hf0 : tkt.frames = F :: below) (hF : F.isDag = true) :
+    ∃ d, DagFrame P s F d ∧ LBase P depth s s t tkt d below := by
+  obtain ⟨d, hdf, hdag, _, hrole⟩ := dagTask_facts (hs.tasks t tkt htkt) hf0 hF
+  refine ⟨d, hdf, ?_⟩
+  have hfresh : ∀ (i : Nat) (tk : Task), s.tasks.length ≤ i → s.tasks[i]? = some tk → FreshTask P tk := by
+    intro i tk hi h
+    have := getElem?_lt h
+    omega
+  have hnn : ∀ d0 n f pc, tkt.frames ≠ [.node d0 n f pc] := by
+    intro d0 n f pc h
+    rw [hf0] at h
+    simp only [List.cons.injEq] at h
+    rw [h.1] at hF; simp [Frame.isDag] at hF
+  rcases hrole with ⟨hb, hn, hdst, hout⟩ | ⟨d', S, hb, hS, hn, hsub⟩
+  · subst hb
+    refine { hs := hs, htkt := htkt, hrt := hrt, role := .main hn hdst hout, dag := hdag, notNode := hnn,
+             oldSw := by intro d' S' hb; cases hb
+             oldMain := ?_, e := Ext.refl _ _, res := rfl, rh := rfl, ph := rfl, sw := rfl, ev := rfl, proc := rfl,
+             fresh := hfresh }
+    intro _
+    cases hdf with
+    | init => exact Or.inl ⟨_, hf0⟩
+    | launch _ m r _ _ _ => exact Or.inr (Or.inl ⟨_, _, hf0⟩)
+    | wait _ _ => exact Or.inr (Or.inr ⟨_, hf0⟩)
+  · subst hb
+    refine { hs := hs, htkt := htkt, hrt := hrt, role := .sw d' S hn hS hsub, dag := hdag, notNode := hnn,
+             oldSw := ?_, oldMain := by intro h; cases h
+             e := Ext.refl _ _, res := rfl, rh := rfl, ph := rfl, sw := rfl, ev := rfl, proc := rfl,
+             fresh := hfresh }
+    intro d'' S' hb
+    simp only [List.cons.injEq, Frame.switchRet.injEq, and_true] at hb
+    obtain ⟨hd', hSS⟩ := hb
+    subst hd' hSS
+    cases hdf with
+    | init => exact Or.inr (Or.inr (Or.inr ⟨_, _, hf0⟩))
+    | launch _ m r _ _ _ => exact Or.inr (Or.inl ⟨_, _, _, hf0⟩)
+    | wait _ _ => exact Or.inr (Or.inr (Or.inl ⟨_, _, hf0⟩))
+
+/-- **a launch loop goes on** after its condition has been notified -/
+theorem struct_launch_resume {P : Program} {depth : Node → Nat} (hp : LiveP P depth) (c : Ctx) (hcP : c.P = P) {s : St}
+    (hs : Struct P depth s) {tkt : Task} (htkt : s.tasks[c.t]? = some tkt) (hrt : ∃ rv, tkt.st = .runnable rv)
+    {d : DagRef} {rest : List Node} {below : List Frame} (hf0 : tkt.frames = .dagLaunch d rest :: below) (obs : List Obs) :
+    Struct P depth (dagLaunch c d below s obs rest).1 := by
+  have hmc : tkt.mustCancel = false := hs.data.noCancel tkt (List.mem_of_getElem? htkt)
+  obtain ⟨d1, hdf, x⟩ := lbase_of_dagTask hs htkt hrt hf0 rfl
+  cases hdf with
+  | launch _ m r hpass hsub htopo =>
+    exact struct_dagLaunch hp c hcP hmc _ _ _ { toLBase := x, passed := hpass, sub := hsub, topo := htopo }
+
+/-- **the final wait of `_run_dag`** is woken -/
+theorem struct_wait_resume {P : Program} {depth : Node → Nat} (hp : LiveP P depth) (c : Ctx) (hcP : c.P = P) {s : St}
+    (hs : Struct P depth s) {tkt : Task} (htkt : s.tasks[c.t]? = some tkt) (hrt : ∃ rv, tkt.st = .runnable rv)
+    {d : DagRef} {below : List Frame} (hf0 : tkt.frames = .dagWaitDest d :: below) (obs : List Obs) :
+    Struct P depth (dagWaitDest c s obs d below).1 := by
+  have hmc : tkt.mustCancel = false := hs.data.noCancel tkt (List.mem_of_getElem? htkt)
+  obtain ⟨d1, hdf, x⟩ := lbase_of_dagTask hs htkt hrt hf0 rfl
+  cases hdf with
+  | wait _ hall =>
+    have := struct_dagLaunch hp c hcP hmc [] s obs
+      { toLBase := x, passed := fun q hq _ => hall q hq, sub := (by intro q hq; cases hq),
+        topo := (by intro pre m post h; simp at h) }
+    simpa only [dagLaunch] using this
+
+/-- **a `_run_dag` starts in a task of its own** (the main one; a `_run_switch` enters its sub-DAG in the section that
+records the decision) -/
+theorem struct_dagInit_task {P : Program} {depth : Node → Nat} (hp : LiveP P depth) (c : Ctx) (hcP : c.P = P) {s : St}
+    (hs : Struct P depth s) {tkt : Task} (htkt : s.tasks[c.t]? = some tkt) (hrt : ∃ rv, tkt.st = .runnable rv)
+    {d : DagRef} {below : List Frame} (hf0 : tkt.frames = .dagInit d :: below) (obs : List Obs)
+    (hv : Obs.badOracle ∉ (dagInit c s obs d below).2) : Struct P depth (dagInit c s obs d below).1 := by
+  have hmc : tkt.mustCancel = false := hs.data.noCancel tkt (List.mem_of_getElem? htkt)
+  obtain ⟨d1, hdf, x⟩ := lbase_of_dagTask hs htkt hrt hf0 rfl
+  cases hdf with
+  | init => exact struct_dagInit hp c hcP hmc x obs (valid_of_dagInit c _ obs d _ hv)
 
 end MLPE.Eng
